@@ -21,6 +21,19 @@ def loop_of(eng, iter_text, nth=0):
     return for_over(eng.get_fnode(MAIN), iter_text, nth)
 
 
+def tnames(loop):
+    """the names bound by the target of a for statement, in order (`for x in ...` -> ['x']; `for n, w in ...` -> ['n', 'w']):
+    harnesses bind the loop variables by position, whatever they are called"""
+    import ast as _ast
+    t = loop.target
+    if isinstance(t, _ast.Name):
+        return [t.id]
+    if isinstance(t, (_ast.Tuple, _ast.List)) and all(isinstance(e, _ast.Name) for e in t.elts):
+        return [e.id for e in t.elts]
+    from pyvc.source import Unresolved
+    raise Unresolved('loop target %s' % _ast.unparse(t))
+
+
 class Outcome:
     def __init__(self, kind, value=None, prints=0, exc=None):
         self.kind = kind          # 'normal' | 'return' | 'raise'
